@@ -2,6 +2,7 @@ package conc
 
 import (
 	"fmt"
+	"os"
 	"runtime"
 	"sort"
 	"strings"
@@ -634,6 +635,8 @@ func c37ConcChild(tier string, idx, of int) int {
 		lim.Violate(p.sig, p.detail, p.replay)
 	}
 	run.Checkpoint()
+	rvnFamily(run, lim, e, tier, idx, seed)
+	run.Checkpoint()
 	return 0
 }
 
@@ -652,4 +655,494 @@ func describeOrder(ops []porcupine.Operation) []string {
 		out = append(out, fmt.Sprintf("%d:%s%d>%d%v%s+%d", o.ClientId, in.Op, in.A, ou.I, ou.B, ou.S, ov))
 	}
 	return out
+}
+
+// ---------------------------------------------------------------------------------------------------------
+// C37, race family "rvn": Restart against AddNotarizedBlock on many fresh rounds.
+//
+// The linearizability histories above never contain a Restart that could be refused, so the one place where the
+// property speaks about restarts ("the phase only moves forward except through ... a restart before sharing") is not
+// raced there. This family does exactly that and nothing else: a short sequential prelude leaves a fresh round below
+// Share, then one goroutine calls AddNotarizedBlock(b) while another calls Restart(). Both leave a tight rendezvous
+// together and then burn a PRNG-chosen number of spin iterations, which moves the two calls against each other by
+// nanoseconds to microseconds. Calls and returns are stamped with the shared logical clock; the round is judged when
+// both have returned.
+//
+// Oracle (reference model below, written from the property text): the two operations are atomic with respect to each
+// other, so the outcome (Restart's answer, final phase, notarized blocks, VRF shares) must be the outcome of one of the
+// two sequential orders the recorded call / return stamps allow:
+//
+//	Restart ; Add   Restart accepted (the round is below Share), the block lands in the restarted round
+//	Add ; Restart   the block is notarized, the phase is Share, Restart is refused and changes nothing
+//
+// "Restart returned nil and the round ends below Share without the block although AddNotarizedBlock returned" matches
+// neither and is the backward move through a restart that was not before sharing.
+
+type rvnBlk struct {
+	Hash string
+	Rank int
+}
+
+// rvnModel is the sequential reference: phase, notarized blocks (hash -> rank), number of VRF shares.
+type rvnModel struct {
+	Phase  int
+	NB     map[string]int
+	Shares int
+}
+
+func (m rvnModel) clone() rvnModel {
+	c := rvnModel{Phase: m.Phase, Shares: m.Shares, NB: map[string]int{}}
+	for k, v := range m.NB {
+		c.NB[k] = v
+	}
+	return c
+}
+
+// add returns true when the block is new to the round (then the round reaches Share).
+func (m *rvnModel) add(b rvnBlk) bool {
+	if _, ok := m.NB[b.Hash]; ok {
+		return false // a known block is only merged
+	}
+	for h, rk := range m.NB {
+		if rk == b.Rank {
+			delete(m.NB, h) // one notarized block per rank
+		}
+	}
+	m.NB[b.Hash] = b.Rank
+	if m.Phase < int(round.Share) {
+		m.Phase = int(round.Share)
+	}
+	return true
+}
+
+// restart returns true when the restart is accepted (only before sharing).
+func (m *rvnModel) restart() bool {
+	if m.Phase >= int(round.Share) {
+		return false
+	}
+	m.Phase = int(round.ShareVRF)
+	m.NB = map[string]int{}
+	m.Shares = 0
+	return true
+}
+
+type rvnOutcome struct {
+	Refused bool
+	Phase   int
+	NB      string // sorted short hashes
+	Shares  int
+}
+
+func (m rvnModel) outcome(refused bool) rvnOutcome {
+	var hs []string
+	for h := range m.NB {
+		hs = append(hs, rvnShort(h))
+	}
+	sort.Strings(hs)
+	return rvnOutcome{Refused: refused, Phase: m.Phase, NB: strings.Join(hs, ","), Shares: m.Shares}
+}
+
+func rvnShort(h string) string { return strings.TrimLeft(h, "0") }
+
+type rvnCase struct {
+	Kind    string
+	Pre     []cop // sequential prelude
+	RaceBlk int   // index of the block offered by the racing AddNotarizedBlock
+	Spin    [2]int
+}
+
+var rvnKinds = []string{"first", "first", "first", "raised", "raised", "replace-same-rank", "replace-same-rank", "other-rank", "known-hash"}
+
+// rvnBlocks: 0 and 3 share rank 0, 1 has rank 1 (same layout as newBlocksN).
+func rvnGen(r *mon.Rand) rvnCase {
+	c := rvnCase{Kind: rvnKinds[r.Intn(len(rvnKinds))]}
+	below := func() int { return r.Intn(int(round.Share)) }
+	switch c.Kind {
+	case "first":
+	case "raised":
+		for k, n := 0, r.Intn(3); k < n; k++ {
+			c.Pre = append(c.Pre, cop{"AddVRFShare", k})
+		}
+		c.Pre = append(c.Pre, cop{"SetPhase", below()})
+	case "replace-same-rank":
+		c.Pre = []cop{{"AddNotarizedBlock", 0}, {"ResetPhase", below()}}
+		c.RaceBlk = 3
+	case "other-rank":
+		c.Pre = []cop{{"AddNotarizedBlock", 0}, {"ResetPhase", below()}}
+		c.RaceBlk = 1
+	case "known-hash":
+		c.Pre = []cop{{"AddNotarizedBlock", 0}, {"ResetPhase", below()}}
+		c.RaceBlk = 0
+	}
+	for i := range c.Spin {
+		switch r.Intn(4) {
+		case 0:
+		case 1:
+			c.Spin[i] = r.Intn(64)
+		case 2:
+			c.Spin[i] = r.Intn(512)
+		default:
+			c.Spin[i] = r.Intn(4096)
+		}
+	}
+	return c
+}
+
+const (
+	rvnAdd     = 0
+	rvnRestart = 1
+)
+
+type rvnSlot struct {
+	c       rvnCase
+	n       int // race number within the lane
+	pre     rvnModel
+	armed   int32 // arrivals at this slot's rendezvous
+	r       *round.Round
+	blk     *block.Block
+	call    [2]int64
+	ret     [2]int64
+	refused bool
+	sink    [2]uint32
+}
+
+type rvnViolation struct {
+	sig, detail string
+	replay      interface{}
+}
+
+type rvnLane struct {
+	id       int
+	gen      int32 // batches published by the coordinator
+	done     int32 // workers through with a batch
+	stop     int32
+	cur      []*rvnSlot
+	progress int64
+	gids     [3]int64
+	finished int32
+
+	counters map[string]int64
+	distinct map[string]bool
+	nviol    map[string]int
+	viol     []rvnViolation
+	incon    []string
+	sample   interface{}
+}
+
+func (l *rvnLane) worker(role int) {
+	atomic.StoreInt64(&l.gids[role], goid())
+	for i := int32(1); ; i++ {
+		for n := 0; atomic.LoadInt32(&l.gen) < i; n++ {
+			if atomic.LoadInt32(&l.stop) != 0 {
+				return
+			}
+			if n > 200 {
+				runtime.Gosched()
+			}
+		}
+		for _, s := range l.cur {
+			// the two workers leave every slot's rendezvous together, then drift apart by their spin counts
+			atomic.AddInt32(&s.armed, 1)
+			for n := 0; atomic.LoadInt32(&s.armed) < 2; n++ {
+				if n > 64 && !rvnNoYield {
+					// the partner may sit in this P's run queue (just woken from the round mutex): let it run
+					runtime.Gosched()
+				}
+			}
+			x := uint32(i)
+			for k := s.c.Spin[role]; k > 0; k-- {
+				x = x*1664525 + 1013904223
+			}
+			s.sink[role] = x
+			if role == rvnAdd {
+				s.call[role] = tick()
+				s.r.AddNotarizedBlock(s.blk)
+				s.ret[role] = tick()
+			} else {
+				s.call[role] = tick()
+				err := s.r.Restart()
+				s.ret[role] = tick()
+				s.refused = err != nil
+			}
+		}
+		atomic.AddInt32(&l.done, 1)
+	}
+}
+
+func rvnNewBlock(rn int64, i int) *block.Block {
+	b := block.NewBlock("", rn)
+	b.Hash = fmt.Sprintf("%064x", uint64(i+1)*1000003)
+	b.RoundRank = i % 3
+	b.MinerID = fmt.Sprintf("miner-%d", i)
+	return b
+}
+
+func rvnInfo(i int) rvnBlk {
+	return rvnBlk{Hash: fmt.Sprintf("%064x", uint64(i+1)*1000003), Rank: i % 3}
+}
+
+func rvnObserve(r *round.Round, refused bool) rvnOutcome {
+	o := rvnOutcome{Refused: refused, Phase: int(r.GetPhase()), Shares: len(r.GetVRFShares())}
+	var hs []string
+	for _, b := range r.GetNotarizedBlocks() {
+		hs = append(hs, rvnShort(b.Hash))
+	}
+	sort.Strings(hs)
+	o.NB = strings.Join(hs, ",")
+	return o
+}
+
+// rvnJudge is the oracle: a function of the case, the four stamps and the quiescent observation only.
+func rvnJudge(c rvnCase, pre rvnModel, call, ret [2]int64, got rvnOutcome) (sig, detail string, allowed map[string]rvnOutcome) {
+	allowed = map[string]rvnOutcome{}
+	b := rvnInfo(c.RaceBlk)
+	ar := pre.clone()
+	effective := ar.add(b)
+	sharedAfterAdd := ar.Phase >= int(round.Share)
+	arRefused := !ar.restart()
+	ra := pre.clone()
+	raRefused := !ra.restart()
+	ra.add(b)
+	addBeforeRestart := ret[rvnAdd] < call[rvnRestart]
+	restartBeforeAdd := ret[rvnRestart] < call[rvnAdd]
+	if !restartBeforeAdd {
+		allowed["Add;Restart"] = ar.outcome(arRefused)
+	}
+	if !addBeforeRestart {
+		allowed["Restart;Add"] = ra.outcome(raRefused)
+	}
+	for _, a := range allowed {
+		if a == got {
+			return "", "", allowed
+		}
+	}
+	desc := fmt.Sprintf("%s: prelude %v left phase %d, notarized {%s}, %d shares; AddNotarizedBlock(%s rank %d) [%d,%d] || Restart() [%d,%d] -> refused=%v; at quiescence phase %d, notarized {%s}, %d shares; allowed %v",
+		c.Kind, c.Pre, pre.Phase, pre.outcome(false).NB, pre.Shares, rvnShort(b.Hash), b.Rank, call[rvnAdd], ret[rvnAdd], call[rvnRestart], ret[rvnRestart], got.Refused, got.Phase, got.NB, got.Shares, allowed)
+	hasBlk := false
+	for _, h := range strings.Split(got.NB, ",") {
+		if h == rvnShort(b.Hash) {
+			hasBlk = true
+		}
+	}
+	switch {
+	case addBeforeRestart && sharedAfterAdd && !got.Refused:
+		return "C37:restart-accepted-at-share", "AddNotarizedBlock had returned (phase Share) before Restart was called, and Restart was accepted: " + desc, allowed
+	case effective && !got.Refused && (got.Phase < int(round.Share) || !hasBlk):
+		return "C37:restart-after-notarization-moved-phase-back", "Restart returned nil and the round ends below Share / without the notarized block although AddNotarizedBlock returned: the restart took effect after the round had reached Share: " + desc, allowed
+	}
+	return "C37:restart-vs-notarized-block-not-atomic", "the outcome is that of neither sequential order: " + desc, allowed
+}
+
+var rvnNoYield bool
+
+const rvnBatch = 256
+
+// prepare builds one fresh round, runs the sequential prelude on it and on the reference, and checks they agree.
+func (l *rvnLane) prepare(e *env, rnd *mon.Rand, i int) *rvnSlot {
+	c := rvnGen(rnd)
+	rn := int64(5000 + i%1000)
+	s := &rvnSlot{c: c, n: i, r: round.NewRound(rn), pre: rvnModel{NB: map[string]int{}}}
+	for k, o := range c.Pre {
+		switch o.Op {
+		case "AddVRFShare":
+			sh := &round.VRFShare{Round: rn, Share: fmt.Sprintf("rvn-%d-%d", i, k)}
+			sh.SetParty(e.Parties[o.A].N)
+			if s.r.AddVRFShare(sh, c37Parties) {
+				s.pre.Shares++
+			}
+		case "SetPhase":
+			s.r.SetPhase(round.Phase(o.A))
+			if o.A > s.pre.Phase {
+				s.pre.Phase = o.A
+			}
+		case "ResetPhase":
+			s.r.ResetPhase(round.Phase(o.A))
+			s.pre.Phase = o.A
+		case "AddNotarizedBlock":
+			s.r.AddNotarizedBlock(rvnNewBlock(rn, o.A))
+			s.pre.add(rvnInfo(o.A))
+		}
+	}
+	if got := rvnObserve(s.r, false); got != s.pre.outcome(false) {
+		l.incon = append(l.incon, fmt.Sprintf("rvn lane %d round %d: after the sequential prelude %v the round shows %+v, the reference %+v", l.id, i, c.Pre, got, s.pre.outcome(false)))
+		return nil
+	}
+	if c.Kind == "known-hash" {
+		for _, b := range s.r.GetNotarizedBlocks() {
+			s.blk = b // the very block object the round already holds
+		}
+	} else {
+		s.blk = rvnNewBlock(rn, c.RaceBlk)
+	}
+	return s
+}
+
+func (l *rvnLane) judge(s *rvnSlot) {
+	c := s.c
+	got := rvnObserve(s.r, s.refused)
+	l.counters["rvn_races"]++
+	l.counters["rvn_races_"+c.Kind]++
+	if s.call[0] < s.ret[1] && s.call[1] < s.ret[0] {
+		l.counters["rvn_races_overlapping_calls"]++
+	}
+	if s.refused {
+		l.counters["rvn_restart_refused"]++
+	} else {
+		l.counters["rvn_restart_accepted"]++
+	}
+	if s.ret[rvnAdd] < s.call[rvnRestart] {
+		l.counters["rvn_add_returned_before_restart_called"]++
+	}
+	if s.ret[rvnRestart] < s.call[rvnAdd] {
+		l.counters["rvn_restart_returned_before_add_called"]++
+	}
+	sig, detail, allowed := rvnJudge(c, s.pre, s.call, s.ret, got)
+	ev := []struct {
+		n string
+		t int64
+	}{{"A(", s.call[0]}, {")A", s.ret[0]}, {"R(", s.call[1]}, {")R", s.ret[1]}}
+	sort.Slice(ev, func(a, b int) bool { return ev[a].t < ev[b].t })
+	order := ev[0].n + ev[1].n + ev[2].n + ev[3].n
+	matched := "none"
+	for name, a := range allowed {
+		if a == got {
+			if matched == "none" {
+				matched = name
+			} else {
+				matched = "either"
+			}
+		}
+	}
+	l.counters["rvn_linearized_as:"+matched]++
+	l.distinct[fmt.Sprintf("rvn:%s:%v:%s:%+v", c.Kind, c.Pre, order, got)] = true
+	if l.sample == nil && l.id == 0 {
+		l.sample = map[string]interface{}{"kind": "restart-vs-notarized-block", "class": c.Kind, "prelude": fmt.Sprint(c.Pre), "spin": c.Spin, "events": order, "outcome": fmt.Sprintf("%+v", got), "linearized_as": matched}
+	}
+	if sig != "" {
+		if l.nviol[sig]++; l.nviol[sig] > perSigCap {
+			l.counters["violations:"+sig]++ // tallied, not kept: the limiter keeps perSigCap witnesses per signature anyway
+			return
+		}
+		l.viol = append(l.viol, rvnViolation{sig, fmt.Sprintf("lane %d race %d: %s", l.id, s.n, detail),
+			map[string]interface{}{"class": c.Kind, "prelude": fmt.Sprint(c.Pre), "race_block": c.RaceBlk, "spin": c.Spin, "events_in_clock_order": order,
+				"stamps":          map[string]int64{"add_call": s.call[0], "add_return": s.ret[0], "restart_call": s.call[1], "restart_return": s.ret[1]},
+				"restart_refused": s.refused, "observed": fmt.Sprintf("%+v", got), "allowed": fmt.Sprintf("%v", allowed)}})
+	}
+}
+
+func (l *rvnLane) coordinate(e *env, rnd *mon.Rand, n int) {
+	atomic.StoreInt64(&l.gids[2], goid())
+	defer atomic.StoreInt32(&l.finished, 1)
+	defer atomic.StoreInt32(&l.stop, 1)
+	for i, batch := 0, int32(1); i < n; batch++ {
+		var slots []*rvnSlot
+		for k := 0; k < rvnBatch && i < n; k++ {
+			i++
+			s := l.prepare(e, rnd, i)
+			if s == nil {
+				return
+			}
+			slots = append(slots, s)
+		}
+		l.cur = slots
+		atomic.StoreInt32(&l.gen, batch)
+		for k := 0; atomic.LoadInt32(&l.done) < 2*batch; k++ {
+			if k > 50 {
+				runtime.Gosched()
+			}
+		}
+		for _, s := range slots { // both workers are through: the rounds are quiescent
+			l.judge(s)
+		}
+		atomic.AddInt64(&l.progress, 1)
+	}
+}
+
+// rvnFamily runs the lanes under a watchdog: an operation (or a quiescent read) that does not return within 20 s is
+// the "every round operation returns" half of the property.
+func rvnFamily(run *mon.Run, lim *limiter, e *env, tier string, idx int, seed uint64) {
+	const lanes = 2
+	per := scale(tier, 12000, 400000)
+	if v := os.Getenv("RVN_PER"); v != "" {
+		fmt.Sscan(v, &per)
+	}
+	rvnNoYield = os.Getenv("RVN_SPIN") != ""
+	var ls []*rvnLane
+	for i := 0; i < lanes; i++ {
+		l := &rvnLane{id: idx*lanes + i, counters: map[string]int64{}, distinct: map[string]bool{}, nviol: map[string]int{}}
+		ls = append(ls, l)
+		rnd := mon.NewRand(seed).Fork(fmt.Sprintf("c37rvn:lane:%d", l.id))
+		go l.worker(rvnAdd)
+		go l.worker(rvnRestart)
+		go l.coordinate(e, rnd, per)
+	}
+	last := make([]int64, lanes)
+	idle := 0
+	hung := false
+	for {
+		time.Sleep(100 * time.Millisecond)
+		all, moved := true, false
+		for i, l := range ls {
+			if atomic.LoadInt32(&l.finished) == 0 {
+				all = false
+			}
+			if p := atomic.LoadInt64(&l.progress); p != last[i] {
+				last[i], moved = p, true
+			}
+		}
+		if all {
+			break
+		}
+		if moved {
+			idle = 0
+			continue
+		}
+		if idle++; idle >= 200 {
+			hung = true
+			break
+		}
+	}
+	if hung {
+		dump := allStacks()
+		var blocked []string
+		for _, l := range ls {
+			atomic.StoreInt32(&l.stop, 1)
+			for k := range l.gids {
+				blk := goroutineBlock(dump, atomic.LoadInt64(&l.gids[k]))
+				if _, ok := blockedInRoundLock(blk); ok {
+					blocked = append(blocked, blk)
+				}
+			}
+		}
+		run.Count("conc_hangs", 1)
+		if len(blocked) > 0 {
+			lim.Violate("C37:op-never-returns:concurrent", "Restart || AddNotarizedBlock race on a fresh round: goroutines parked on the round mutex after 20 s", map[string]interface{}{"family": "restart-vs-notarized-block", "dump": strings.Join(blocked, "\n\n")})
+		} else {
+			run.Inconclusive("restart-vs-notarized-block race family made no progress for 20 s (no round frame blocked)")
+		}
+		return // the lanes' own tallies are not read: their goroutines may still be writing them
+	}
+	for _, l := range ls {
+		fmt.Printf("RVNRES lane %d violations %v counters %v\n", l.id, l.nviol, l.counters)
+		for k, v := range l.counters {
+			run.Count(k, v)
+		}
+		run.Eval(l.counters["rvn_races"])
+		for k := range l.distinct {
+			run.Distinct(k)
+		}
+		if l.sample != nil {
+			run.Sample(l.sample)
+		}
+		for _, s := range l.incon {
+			run.Inconclusive(s)
+		}
+		for _, v := range l.viol {
+			lim.Violate(v.sig, v.detail, v.replay)
+		}
+	}
+	// the family only says something when the two calls really met: a schedule that serialises them is not a race
+	if n, ov := run.Counter("rvn_races"), run.Counter("rvn_races_overlapping_calls"); ov*50 < n {
+		run.Inconclusive(fmt.Sprintf("restart-vs-notarized-block race family: only %d of %d races had overlapping call intervals", ov, n))
+	}
 }
